@@ -133,7 +133,34 @@ func (f *e2FSM) Snapshot() (raft.FSMSnapshot, error) {
 	f.swapIn()
 	defer f.swapOut()
 	*canaryCompactionStart = 0
-	return f.n.fsm.Snapshot()
+	snap, err := f.n.fsm.Snapshot()
+	if err != nil || snap == nil {
+		return snap, err
+	}
+	// raft persists the snapshot on another goroutine while entries keep being applied; the simulator
+	// decides how long that goroutine is kept waiting
+	var d time.Duration
+	if r := f.n.run; r.choice(fmt.Sprintf("persistdelay/%d", f.n.idx), 2) == 1 {
+		d = time.Duration(1+r.choice(fmt.Sprintf("persistdelayms/%d", f.n.idx), 400)) * time.Millisecond
+	}
+	return &e2Snap{FSMSnapshot: snap, n: f.n, delay: d, appliedAt: f.n.raft.AppliedIndex()}, nil
+}
+
+type e2Snap struct {
+	raft.FSMSnapshot
+	n         *e2Node
+	delay     time.Duration
+	appliedAt uint64
+}
+
+func (s *e2Snap) Persist(sink raft.SnapshotSink) error {
+	if s.delay > 0 {
+		time.Sleep(s.delay)
+	}
+	if s.n.raft != nil && s.n.raft.AppliedIndex() > s.appliedAt {
+		s.n.run.count("snapshots_persisted_after_further_applies", 1)
+	}
+	return s.FSMSnapshot.Persist(sink)
 }
 
 func (f *e2FSM) Restore(rc io.ReadCloser) error {
@@ -1144,7 +1171,7 @@ func (r *e2Run) admin(ctx context.Context) {
 		_ = body
 		k++
 		toml := fmt.Sprintf("SessionExpiration = \"%dm0s\"\nPostMessageCooloff = \"%dms\"\nMaxChannels = %d\n[IRC]\n[[IRC.Operators]]\nName = \"root\"\nPassword = \"pw%d\"\n[TrustedBridges]\n\"b%d\" = \"bridge\"\n", 20+k, 100+g.Intn(400), 50+k, k, k)
-		kind := g.Pick([]string{"valid", "valid", "valid", "stale", "future", "invalid-toml", "no-revision"})
+		kind := g.Pick([]string{"valid", "valid", "valid", "stale", "future", "invalid-toml", "no-revision", "garbage-revision"})
 		h := basic()
 		sendRev := rev
 		switch kind {
@@ -1161,6 +1188,10 @@ func (r *e2Run) admin(ctx context.Context) {
 		}
 		if kind != "no-revision" {
 			h["X-RobustIRC-Config-Revision"] = strconv.FormatUint(sendRev, 10)
+		}
+		if kind == "garbage-revision" {
+			// names no revision at all
+			h["X-RobustIRC-Config-Revision"] = g.Pick([]string{"", "abc", "-1", "1.0", "18446744073709551616", "rev0", "0 0"})
 		}
 		// the leader judges the revision; posts are sequential so nobody else changes it meanwhile.
 		// (a follower's GET may lag: read the revision in force from the leader's state instead)
@@ -1206,6 +1237,24 @@ func (r *e2Run) admin(ctx context.Context) {
 			}
 		case code >= 400 && code < 500 && shouldAccept && r.faultFree():
 			r.violate("C16", "valid-config-refused", "valid-config-refused", "a valid update naming the revision in force (%d) was refused with %d: %s", inForce, code, trunc(string(rb), 120))
+		case code >= 400 && !shouldAccept && kind != "invalid-toml":
+			// a rejected update changes nothing: its (unique) operator password must never come into force
+			// (an update that names the revision in force may be refused with an error and still commit
+			// when the leader loses its lease meanwhile: undecided, not judged)
+			time.Sleep(time.Duration(100+g.Intn(800)) * time.Millisecond)
+			r.count("config_refusals_checked", 1)
+			mark := fmt.Sprintf("pw%d", k)
+			for _, n := range r.nodes {
+				if !n.aliveA.Load() {
+					continue
+				}
+				pv := ircserver.VerifPriv(n.ircNow())
+				for _, op := range pv.Operators {
+					if op[1] == mark {
+						r.violate("C16", "rejected-config-took-effect", "rejected-config-took-effect:"+kind, "a %s configuration update (revision header %q, in force %d) was refused with %d (%s) but is in force on node %d (revision %d now)", kind, h["X-RobustIRC-Config-Revision"], inForce, code, trunc(string(rb), 80), n.idx, pv.Revision)
+					}
+				}
+			}
 		}
 	}
 }
@@ -1386,7 +1435,12 @@ func (e2Engine) Generate(seed uint64, prop, tier string) (json.RawMessage, error
 	for i := 0; i < nf; i++ {
 		at := int64(g.Range(500, int(sc.Duration)-2000))
 		n := g.Intn(sc.Nodes)
-		switch r := g.Intn(115); {
+		switch r := g.Intn(127); {
+		case r >= 115:
+			// a node snapshots under traffic and is restarted from that snapshot a little later
+			sc.Steps = append(sc.Steps, e2Step{At: at, K: "snapshot", N: n})
+			sc.Steps = append(sc.Steps, e2Step{At: at + int64(g.Range(600, 4000)), K: "kill", N: n})
+			sc.Steps = append(sc.Steps, e2Step{At: at + int64(g.Range(4500, 9000)), K: "restart", N: n})
 		case r >= 100:
 			// the process dies inside a storage operation (journal write of the raft log or of the applied-log
 			// copy, manifest update, snapshot file ...), optionally leaving a torn write behind
